@@ -54,6 +54,30 @@ Theorem c16_chunking_fixed : forall chunks,
 Proof. exact t38_fixed_chunking. Qed.
 Print Assumptions c16_chunking_fixed.
 
+(* netServe hands each socket read to ONE ReadMessages call, whose single Read takes at most the pipeline
+   buffer; what does not fit is parked in client.in (InputStream) until the NEXT socket read.  As long as the
+   socket read size does not exceed the pipeline buffer size nothing is ever parked and netServe's loop is
+   exactly the conn_run of the chunking theorems.  The hypothesis is explicit; the source's two constants
+   (Model/Pipeline.v sock_read_size, pipeline_buf_size; compared with the literals of server.go by the
+   harness on every run) satisfy it. *)
+Theorem c16_in_b_dead : forall parse rsz psz reads buf acc,
+  (rsz <= psz)%nat -> Forall (fun r => (length r <= rsz)%nat) reads ->
+  serve_reads parse psz reads [] buf acc = of_conn (conn_run parse reads buf acc).
+Proof. exact in_b_dead. Qed.
+Print Assumptions c16_in_b_dead.
+
+Theorem c16_source_read_size_fits : (N.to_nat sock_read_size <= N.to_nat pipeline_buf_size)%nat.
+Proof. exact source_sizes_fit. Qed.
+Print Assumptions c16_source_read_size_fits.
+
+(* the hypothesis is needed: a read one byte larger than the buffer leaves a complete command unparsed *)
+Theorem c16_oversized_read_refuted :
+  let r := [80; 73; 78; 71; 13; 10]%N in
+  serve_reads t38_parse_fixed 5 [r] [] [] [] = SOpen [] [80; 73; 78; 71; 13]%N [10%N] /\
+  conn_run t38_parse_fixed [r] [] [] = Open [{| m_args := [[80; 73; 78; 71]%N]; m_kind := KTelnet |}] [].
+Proof. exact oversized_read_parks. Qed.
+Print Assumptions c16_oversized_read_refuted.
+
 (* F6: on the pinned code "never panics" is false — a negative bulk length indexes / slices out of
    range in redcon, and nothing recovers on the connection goroutine. *)
 Theorem c16_no_panic_refuted :
